@@ -356,6 +356,12 @@ def process(ctx, runner, reqfile, stats, label):
     os.unlink(mp)
 
 
+def regenerate():
+    """Regenerate Syntax/TokenKind.lean from token.rs / lexer.rs (used by ./check setup)."""
+    rc, out = C.sh(["python3", GEN_TOOL])
+    if rc != 0:
+        raise RuntimeError("token table generator failed:\n" + out[-2000:])
+
 def run(ctx):
     notes = []
     # (0) regenerate the token-kind / keyword / operator tables from the Rust source
